@@ -78,7 +78,10 @@ def model_runs(tier):
             {"tlaps": "proofs/KernelProofs.tla"}]      # violation = distance, positive iff outside: for all integers
 
 
+from .basic import C13_CLAUSES as _BASIC_CLAUSES  # noqa: E402
+
 CHECK = PropertyCheck(
+    attached=(("rv.drivers.basic", _BASIC_CLAUSES, "medium"),),
     prop="C13", trace_module="Trace_C13", drive=drive, model_runs=model_runs,
     rule=("TLC enumerates value x (lower, upper) with either side finite or infinite for the first entry and a catalogue of companion "
           "entries (every finite/infinite mix within one bound vector), x tolerance x six transform sets (none, all, variable scales, variable offsets only, constraint scaling only, objective scaling only; dyadic); the same triples serve as "
